@@ -1,7 +1,6 @@
-(* C04 — Selective disclosure is complete and minimal (structural part; the algebraic
-   completeness theorem is in C04 once proved, see DESIGN.md). *)
+(* C04 — Selective disclosure is complete and minimal. *)
 From Coq Require Import ZArith List.
-From Gabi Require Import ModArith GoSem ParamsDef Keys Core CL Prover.
+From Gabi Require Import ModArith GoSem ParamsDef Keys Core CL Prover DiscloseComplete.
 Import ListNotations.
 Open Scope Z_scope.
 
@@ -33,3 +32,22 @@ Proof. exact timestamp_hides_lem. Qed.
    response over the integers; the statistical argument over the bounded randomizer is cited) *)
 Theorem response_hides : forall r c m m' : Z, exists r', r + c * m = r' + c * m'.
 Proof. exact response_hides_lem. Qed.
+
+(* Completeness: for a valid (randomised) signature on the attribute list, whatever subset is disclosed
+   (without repetition), whatever the randomizers and the challenge, the proof CreateProof builds makes the
+   verifier's reconstructZ return exactly the commitment Z~ the builder put into the challenge; hence the
+   recomputed challenge is the proof's challenge and the honest proof verifies. Units: the bases, A' and Z
+   are invertible modulo n (they are for a well-formed key); attribute values are non-negative. *)
+Theorem disclosure_complete :
+  forall pk, 1 < pk_N pk ->
+  forall is_prime sg attrs disclosed und eC vC rand skR c l b' p a e v (rnd : Z -> Z),
+  cl_verify pk is_prime sg attrs = Ok true ->
+  sig_A sg = Some a -> sig_E sg = Some e -> sig_V sg = Some v -> sig_KP sg = None ->
+  get_undisclosed disclosed (Z.of_nat (length attrs)) = Ok und -> NoDup disclosed ->
+  unitb pk a -> unitb pk (pk_S pk) -> unitb pk (pk_Z pk) -> (forall i, in_R pk i -> unitb pk (R_at pk i)) ->
+  (forall m, In m attrs -> 0 <= m) -> 0 <= c ->
+  (forall i, In i und -> lookup (set_rand rand 0 skR) i = Some (rnd i)) ->
+  db_commit pk (mkDb sg eC vC rand disclosed und attrs) skR None = Ok (l, b') ->
+  db_create_proof pk b' c = Ok p ->
+  exists z, l = [a; z] /\ reconstruct_z pk p = Ok z.
+Proof. exact disclose_complete_lem. Qed.
